@@ -1,4 +1,5 @@
 // C14 — igris::static_vector<T,N> (static_vector.h) and igris::static_string<N> (static_string.h).
+#include "c14_large.hpp"
 #include "c14_static.hpp"
 #include <igris/container/static_string.h>
 #include <igris/container/static_vector.h>
@@ -14,5 +15,9 @@ namespace
         static constexpr bool has_ptr_len = false, has_clear = false, has_append = false, has_find_split = false, has_find = false;
     };
 }
-MC_INIT { c14::register_all<Traits>(); }
+MC_INIT
+{
+    c14::register_all<Traits>();
+    c14::register_large<Traits>();
+}
 MC_MAIN
